@@ -134,6 +134,65 @@ def work(item):
     return n_eval, n_true, fails, outcomes
 
 
+BLOCK_OF = {"md5": 64, "sha1": 64, "sha256": 64, "sha384": 128}
+
+
+def long_lengths(h, tier):
+    """Body lengths around the places where the scan windows of the
+    constant-time check start: 256 and 256 + digest before the end, rounded
+    to the hash block, for one and two extra hash blocks."""
+    bs, ds = BLOCK_OF[h], DIGEST[h]
+    out = set()
+    for k in (1, 2) if tier == "quick" else (1, 2, 3, 5):
+        for r in (0, 1, ds - 1, ds, ds + 1, bs - 1):
+            out.add(256 + k * bs + r)
+        out.add(256 + ds + k * bs)
+        out.add(256 + ds + k * bs - 1)
+    return sorted(out)
+
+
+def work_long(item):
+    """Targeted corruption of long well-formed bodies: every claimed padding
+    in the menu x {first data byte, last data byte, first/middle/last MAC
+    byte, first padding byte, byte before the scan window}."""
+    version, h, block, n, seed, tier = item
+    key = hashlib.sha256(b"c12key%d" % seed).digest()[:DIGEST[h]]
+    seq = struct.pack(">Q", 0x0102030405060708 ^ seed)
+    d = DIGEST[h]
+    fails, outcomes = [], set()
+    n_eval = n_true = 0
+    pads = list(range(192, 256)) + [0, 1, 15, 16, 64, 128, 191]
+    if version == (3, 0):
+        pads = list(range(0, block + 2))
+    for p in pads:
+        body, wf = build(version, h, key, seq, 23, n, p, block,
+                         (n * 7 + p) & 0xff)
+        if not wf:
+            continue
+        dl = n - p - 1 - d
+        posns = sorted(set(x for x in (
+            0, dl - 1, dl, dl + d // 2, dl + d - 1, dl + d, n - 257,
+            n - 256 - d, n - 256 - d - 1, n - 2) if 0 <= x < n - 1))
+        for pos in [None] + posns:
+            b2 = bytearray(body)
+            if pos is not None:
+                b2[pos] ^= 0x01
+            b2 = bytes(b2)
+            w2 = spec(version, h, key, seq, 23, b2, block)
+            g2 = lib_check(version, h, key, seq, 23, b2, block)
+            n_eval += 1
+            n_true += bool(g2)
+            outcomes.add((w2, g2))
+            if w2 is not None and g2 != w2:
+                fails.append({"version": version, "mac": h, "block": block,
+                              "len": n, "pad": p, "want": w2, "got": g2,
+                              "corrupt": None if pos is None else
+                              [pos, 1]})
+                if len(fails) > 5:
+                    return n_eval, n_true, fails, outcomes
+    return n_eval, n_true, fails, outcomes
+
+
 # ---------------------------------------------------------------- recvRecord
 def recv_work(item):
     """Bodies built by the independent sender, through RecordLayer."""
@@ -277,6 +336,26 @@ def run(res, tier, seed):
                 "pad": 15, "body": "data(1)||HMAC||0f*16 -> True"})
     res.section("function", combos=len(combos), evaluations=total,
                 accepted=accepted)
+    litems = []
+    for (v, h, b) in combos:
+        for n in long_lengths(h, tier):
+            litems.append((v, h, b, n, seed, tier))
+    ltotal = 0
+    for (n_eval, n_true, fails, outcomes) in pmap(work_long, litems,
+                                                  chunksize=2):
+        ltotal += n_eval
+        res.count(n_eval)
+        for o in outcomes:
+            res.outcome(("long",) + o)
+        for f in fails:
+            res.violation({"part": "function-long", "version": f["version"],
+                           "mac": f["mac"], "want": f["want"],
+                           "corrupt": f["corrupt"] is not None}, f,
+                          {"part": "function", "case": f})
+    res.section("function_long_bodies", lengths_per_combo=len(
+        long_lengths("sha1", tier)), evaluations=ltotal,
+        corruption="single bit at data/MAC/padding/scan-window boundaries")
+    total += ltotal
     from .. import scen as S
     ritems = []
     for (v, sid) in S.suite_version_pairs():
